@@ -209,6 +209,38 @@ fn c14_eval(c: &C14Case, r: &mut Report) {
                     });
                 }
             }
+            // ... and the same token through parsers that carry validators / an expectation (accepting ones, also for a claim the
+            // token does NOT carry) and through PasetoParser::default(): a successful parse must still return exactly the claims set
+            if r.evaluations % 4 == 0 {
+                let absent: Vec<String> = ["absent", "nbf", "zz-absent"].iter().map(|k| k.to_string()).filter(|k| !want.contains_key(k)).collect();
+                let mut validators: Vec<VSpec> = Vec::new();
+                for (i, k) in absent.iter().enumerate() {
+                    let claim = if k == "nbf" { Claim::Nbf("2001-01-01T00:00:00+00:00".into()) } else { Claim::Custom(k.clone(), json!("dummy")) };
+                    validators.push(VSpec { claim, behave: VBehave::Accept, reg: if i % 2 == 0 { VReg::ValidateClaim } else { VReg::ExtendOnly }, second: false, odd: 0 });
+                }
+                let present_custom = want.iter().find(|(k, _)| !RESERVED.contains(&k.as_str()) && !k.is_empty());
+                let mut expected: Vec<Claim> = Vec::new();
+                if let Some((k, v)) = present_custom {
+                    expected.push(Claim::Custom(k.clone(), v.clone()));
+                }
+                let cfgs = [
+                    ("generic parser with accepting validators (incl. for absent claims) and a matching expectation", false, ParserCfg { validators: validators.clone(), expected: expected.clone(), ..Default::default() }),
+                    ("PasetoParser::new() with accepting validators (incl. for absent claims)", true, ParserCfg { validators: validators.iter().cloned().map(|mut v| { v.reg = VReg::ValidateClaim; v }).collect(), ..Default::default() }),
+                    ("PasetoParser::default()", true, ParserCfg { default_parser: true, ..Default::default() }),
+                ];
+                for (what, batteries, cfg) in cfgs {
+                    let out = if batteries { batteries_open(c.p, &c.key, &tok, &cfg).0 } else { generic_open(c.p, &c.key, &tok, &cfg).0 };
+                    let _ = vlog_take();
+                    match out {
+                        Out::Ok(Value::Object(got)) if got == want => r.count("configured parsers return exactly the claims set"),
+                        Out::Ok(Value::Object(got)) => r.violation(format!("C14 claims-differ-through-configured-parser {}", tag), format!("{}: {} returned claims that differ from the claims set: {}", tag, what, diff_objects(&want, &got)), replay()),
+                        Out::Ok(other) => r.violation(format!("C14 claims-differ-through-configured-parser {}", tag), format!("{}: {} returned {}", tag, what, util::clip(&other.to_string(), 80)), replay()),
+                        Out::Panic(loc) => r.violation(format!("C14 panic {}", tag), format!("{}: {} panicked: {}", tag, what, loc), replay()),
+                        // a refusal is a matter for C11/C12/C15/C16 (e.g. the default parser on an expired exp), not for C14
+                        Out::Err(e) => r.count(&format!("configured parser refused ({})", e.split('(').next().unwrap_or(""))),
+                    }
+                }
+            }
             if r.samples.len() < 8 && r.evaluations % 211 == 3 {
                 r.sample(json!({"protocol": tag, "history": c.ops.iter().map(|o| match o { ClaimOp::Set(cl) => format!("set {:?}", cl.key()), ClaimOp::Remove(k) => format!("remove {:?}", k), ClaimOp::Extend(kv) => format!("extend_claims {:?}", kv.iter().map(|x| x.0.as_str()).collect::<Vec<_>>()) }).collect::<Vec<_>>(), "parsed_equals_model": want}));
             }
@@ -273,7 +305,7 @@ pub fn run_c14(tier: &str, seed: u64) -> Report {
     let r = parallel(mitems.len(), util::threads(), |i, r| {
         let (p, j) = mitems[i];
         let mut rng = Rng::new(seed, "c14-multi", (p as u64) << 32 | j as u64);
-        let c = C14Multi { p, key: pools.key(p, j % pools.count(p)), ops: random_multi(&mut rng) };
+        let c = C14Multi { p, key: pools.key(p, j % pools.count(p)), ops: random_multi(&mut rng), prop: "C14".into() };
         c14_multi_eval(&c, r);
     });
     total.merge(r);
@@ -322,6 +354,7 @@ pub fn run_c14(tier: &str, seed: u64) -> Report {
     for &p in &ALL {
         total.require(&format!("{} equal", p.name()), 50);
     }
+    total.require("configured parsers return exactly the claims set", 1000);
     total.require("claims set: native Rust value through Serialize", 100);
     total.require("claims set: registered typed constructor", 100);
     total
@@ -333,6 +366,31 @@ pub struct C14Multi {
     pub p: P,
     pub key: KeyMat,
     pub ops: Vec<GOp>,
+    /// the property on whose behalf the history runs (C14; C01/C02 run the same histories as round trips)
+    #[serde(default = "c14_name")]
+    pub prop: String,
+}
+fn c14_name() -> String {
+    "C14".into()
+}
+
+/// the same ONE-builder histories on behalf of another property (C01: local protocols, C02: public protocols)
+pub fn multi_round_trips(prop: &str, protos: &[P], n_per_proto: usize, seed: u64, pools: &Pools) -> Report {
+    let mut items: Vec<(P, usize)> = Vec::new();
+    for &p in protos {
+        let n = if p == P::V1P { n_per_proto / 6 } else if p == P::V3P { n_per_proto / 3 } else { n_per_proto };
+        for j in 0..n.max(8) {
+            items.push((p, j));
+        }
+    }
+    let mut rep = parallel(items.len(), util::threads(), |i, r| {
+        let (p, j) = items[i];
+        let mut rng = Rng::new(seed, "multi-round-trips", (p as u64) << 32 | j as u64);
+        let c = C14Multi { p, key: pools.key(p, j % pools.count(p)), ops: random_multi(&mut rng), prop: prop.to_string() };
+        c14_multi_eval(&c, r);
+    });
+    rep.require("multi-build: later builds equal", (n_per_proto / 2) as u64);
+    rep
 }
 
 fn c14_multi_eval(c: &C14Multi, r: &mut Report) {
@@ -362,7 +420,7 @@ fn c14_multi_eval(c: &C14Multi, r: &mut Report) {
                 let tok = match out {
                     Out::Ok(t) => t,
                     o => {
-                        r.violation(format!("C14 multi-build build-failed {}", tag), format!("{} [{}] build #{} failed: {}", tag, word.join(" "), nth, o.brief()), replay());
+                        r.violation(format!("{} multi-build build-failed {}", c.prop, tag), format!("{} [{}] build #{} failed: {}", tag, word.join(" "), nth, o.brief()), replay());
                         continue;
                     }
                 };
@@ -378,11 +436,11 @@ fn c14_multi_eval(c: &C14Multi, r: &mut Report) {
                         }
                     }
                     Out::Ok(Value::Object(got)) => r.violation(
-                        format!("C14 multi-build claims-differ {} build={}", tag, if nth == 1 { "first" } else { "later" }),
+                        format!("{} multi-build claims-differ {} build={}", c.prop, tag, if nth == 1 { "first" } else { "later" }),
                         format!("{} ONE builder [{}] build #{}: {}", tag, word.join(" "), nth, diff_objects(&want, &got)),
                         replay(),
                     ),
-                    o => r.violation(format!("C14 multi-build parse-failed {} {}", tag, o.class()), format!("{} ONE builder [{}] build #{}: token does not parse with the footer/assertion in force: {}", tag, word.join(" "), nth, o.brief()), replay()),
+                    o => r.violation(format!("{} multi-build parse-failed {} {}", c.prop, tag, o.class()), format!("{} ONE builder [{}] build #{}: token does not parse with the footer/assertion in force: {}", tag, word.join(" "), nth, o.brief()), replay()),
                 }
             }
         }
@@ -851,6 +909,24 @@ pub fn run_c15(tier: &str, seed: u64) -> Report {
         ("{\"seats\":{\"$serde_json::private::RawValue\":\"4\"}}", vec![ClaimOp::Set(Claim::Custom("seats".into(), json!({"$serde_json::private::RawValue": "4"})))], vec![Claim::Custom("seats".into(), json!(4))], false),
         ("{\"aud\":{\"$serde_json::private::RawValue\":\"\\\"customers\\\"\"}}", vec![ClaimOp::Set(Claim::Custom("aud".into(), json!({"$serde_json::private::RawValue": "\"customers\""})))], vec![Claim::Aud("customers".into())], false),
     ];
+    // member NAMES that only another implementation (or the core layer) can emit - the builders ignore a claim with an empty
+    // key: the empty string, a NUL, a quote, a byte-order mark and a 300-character name are member names like any other
+    let long_key = "k".repeat(300);
+    let long_text = format!("{{\"{}\":1,\"n\":2}}", long_key);
+    let mut foreign = foreign;
+    foreign.extend(vec![
+        ("{\"\":7,\"n\":1}", vec![ClaimOp::Extend(vec![("".into(), json!(7)), ("n".into(), json!(1))])], vec![Claim::Custom("".into(), json!(7))], true),
+        ("{\"\":8,\"n\":1}", vec![ClaimOp::Extend(vec![("".into(), json!(8)), ("n".into(), json!(1))])], vec![Claim::Custom("".into(), json!(7))], false),
+        ("{\"\":\"7\"}", vec![ClaimOp::Extend(vec![("".into(), json!("7"))])], vec![Claim::Custom("".into(), json!(7))], false),
+        ("{\"n\":1}", vec![ClaimOp::Extend(vec![("n".into(), json!(1))])], vec![Claim::Custom("".into(), json!(7))], false),
+        ("{\"n\":1,\" \":7}", vec![ClaimOp::Extend(vec![("n".into(), json!(1)), (" ".into(), json!(7))])], vec![Claim::Custom("".into(), json!(7))], false),
+        ("{\"\\u0000k\":1}", vec![ClaimOp::Extend(vec![("\u{0}k".into(), json!(1))])], vec![Claim::Custom("\u{0}k".into(), json!(1))], true),
+        ("{\"k\":1}", vec![ClaimOp::Extend(vec![("k".into(), json!(1))])], vec![Claim::Custom("\u{0}k".into(), json!(1))], false),
+        ("{\"k\\\"q\":1}", vec![ClaimOp::Extend(vec![("k\"q".into(), json!(1))])], vec![Claim::Custom("k\"q".into(), json!(1))], true),
+        ("{\"\\ufeffk\":1}", vec![ClaimOp::Extend(vec![("\u{feff}k".into(), json!(1))])], vec![Claim::Custom("k".into(), json!(1))], false),
+        (long_text.as_str(), vec![ClaimOp::Extend(vec![(long_key.clone(), json!(1)), ("n".into(), json!(2))])], vec![Claim::Custom(long_key.clone(), json!(1)), Claim::Custom("n".into(), json!(2))], true),
+        (long_text.as_str(), vec![ClaimOp::Extend(vec![(long_key.clone(), json!(1)), ("n".into(), json!(2))])], vec![Claim::Custom(long_key[..299].to_string(), json!(1))], false),
+    ]);
     for &p in &[P::V4L, P::V2L, P::V4P, P::V3L] {
         let key = pools.key(p, 0);
         for (layer, dp) in [(Layer::Generic, false), (Layer::Batteries, false), (Layer::Batteries, true)] {
@@ -957,7 +1033,7 @@ pub fn run_c15(tier: &str, seed: u64) -> Report {
     let _ = crate::c04::recent_sessions_take();
     for &p in &ALL {
         let key = pools.key(p, 0);
-        let mk = |role: Value, seats: i64| vec![ClaimOp::Set(Claim::Custom("role".into(), role)), ClaimOp::Set(Claim::Custom("seats".into(), json!(seats))), ClaimOp::Set(Claim::Aud("aud-1".into()))];
+        let mk = |role: Value, seats: i64| vec![ClaimOp::Set(Claim::Custom("role".into(), role)), ClaimOp::Set(Claim::Custom("seats".into(), json!(seats))), ClaimOp::Set(Claim::Aud("aud-1".into())), ClaimOp::Set(Claim::Custom("tier".into(), json!("gold"))), ClaimOp::Set(Claim::Iss("issuer-1".into()))];
         let specs = [mk(json!("admin"), 4), mk(json!("guest"), 4), mk(json!("admin"), 5)];
         let toks: Vec<String> = specs.iter().filter_map(|s| generic_seal(p, &key, s, None, None).0.ok().cloned()).collect();
         if toks.len() != 3 {
@@ -990,6 +1066,17 @@ pub fn run_c15(tier: &str, seed: u64) -> Report {
             step(PStep::Parse { token: toks[2].clone(), key: 0 }, Some(false), "additional expectation aud=aud-2; token has aud-1");
             step(PStep::Check(Claim::Aud("aud-1".into())), None, "");
             step(PStep::Parse { token: toks[2].clone(), key: 0 }, Some(true), "expectation REPLACED by aud=aud-1; token admin/5/aud-1");
+            // several expectations registered AT ONCE (one extend_check_claims call on GenericParser) with more entries than the
+            // parser holds, replacing two of them: the registration made last is the one in force
+            step(PStep::CheckMany(vec![Claim::Custom("role".into(), json!("guest")), Claim::Custom("seats".into(), json!(4)), Claim::Custom("tier".into(), json!("gold")), Claim::Iss("issuer-1".into())]), None, "");
+            step(PStep::Parse { token: toks[1].clone(), key: 0 }, Some(true), "four expectations registered at once, REPLACING role by guest and seats by 4; token guest/4");
+            step(PStep::Parse { token: toks[0].clone(), key: 0 }, Some(false), "same expectations; token admin/4");
+            step(PStep::Parse { token: toks[2].clone(), key: 0 }, Some(false), "same expectations; token admin/5");
+            step(PStep::CheckMany(vec![Claim::Custom("role".into(), json!("admin"))]), None, "");
+            step(PStep::Parse { token: toks[0].clone(), key: 0 }, Some(true), "one expectation registered through the same call, REPLACING role by admin; token admin/4");
+            step(PStep::CheckMany(vec![Claim::Custom("role".into(), json!("admin")), Claim::Custom("seats".into(), json!(5)), Claim::Custom("tier".into(), json!("gold")), Claim::Iss("issuer-1".into()), Claim::Aud("aud-1".into()), Claim::Custom("tier".into(), json!("gold"))]), None, "");
+            step(PStep::Parse { token: toks[2].clone(), key: 0 }, Some(true), "all five expectations registered again at once with seats=5; token admin/5");
+            step(PStep::Parse { token: toks[0].clone(), key: 0 }, Some(false), "same expectations; token admin/4");
             let c = crate::c04::SessionCase { prop: "C15".into(), p, batteries, default_parser: dp, keys: vec![key.clone()], footer: None, ia: None, steps, expect, what, nested_expect: vec![], nested_what: vec![] };
             crate::c04::session_eval(&c, &mut r);
         }
@@ -1600,7 +1687,16 @@ pub fn run_c16(tier: &str, seed: u64) -> Report {
             plan.push((PStep::Parse { token: tok.clone(), key: 0 }, Some(false), "the SAME token after the implicit assertion was changed"));
             plan.push((PStep::SetAssertion("ia".into()), None, ""));
             plan.push((PStep::Parse { token: tok.clone(), key: 0 }, Some(true), "own key, assertion restored"));
+            // ... and UN-set (the empty assertion), then set again
+            plan.push((PStep::SetAssertion("".into()), None, ""));
+            plan.push((PStep::Parse { token: tok.clone(), key: 0 }, Some(false), "the SAME token after the implicit assertion was set to the empty string"));
+            plan.push((PStep::SetAssertion("ia".into()), None, ""));
+            plan.push((PStep::Parse { token: tok.clone(), key: 0 }, Some(true), "own key, assertion set again"));
         }
+        plan.push((PStep::SetFooter("".into()), None, ""));
+        plan.push((PStep::Parse { token: tok.clone(), key: 0 }, Some(false), "the SAME token after the expected footer was set to the empty string"));
+        plan.push((PStep::SetFooter("ftr".into()), None, ""));
+        plan.push((PStep::Parse { token: tok.clone(), key: 0 }, Some(true), "own key, footer set again"));
         if i % 3 == 1 {
             // start with the refused presentation instead
             plan.swap(0, 1);
